@@ -520,3 +520,27 @@ class UpcheckMember:
         return (implies(not covered, len(_trace) == 0 and result[1] == changed)
                 and implies(covered, len(_trace) >= 1 and result[1]
                             and (len(_trace) == 2) == (g_rest.goodness <= min_goodness)))
+
+
+MERGE_KM = TRec("_Merge", key=KEY, mask=KEY)
+
+
+@contract("rig/routing_table/ordered_covering.py::_get_covered_keys_and_masks@forbody:1")
+class CoveredAliasStep:
+    """the down-check looks at every entry below the insertion point through its aliases (the original entries it stands
+    for): a pair is reported as covered exactly when it shares a key with the merged entry - whatever its route"""
+    properties = ("C04", "C01")
+    params = dict(merge=MERGE_KM, key=KEY, mask=KEY)
+    fragment_result = ()
+    fragment_head = "for key, mask in keys_masks:"
+
+    def native(key):
+        raise __import__("pyvc.replay", fromlist=["OutsideHarness"]).OutsideHarness()
+
+    def requires(merge, key, mask):
+        return well_formed(merge.key, merge.mask) and well_formed(key, mask)
+
+    def ensures_reported_exactly_when_it_shares_a_key_with_the_merged_entry(merge, key, mask, result):
+        hit = shares_a_key(merge.key, merge.mask, key, mask)
+        return (implies(hit, seq_len(result) == 1 and select(result, 0) == (key, mask))
+                and implies(not hit, seq_len(result) == 0))
